@@ -1335,6 +1335,42 @@ def run_fset(case, drv):
     b = check("copy", [A], lambda o: o[0].copy(), tA)
     if b:
         return b
+    # session on ONE FactorSet object: add_factors / remove_factors / in-place product, divide, marginalize in sequence;
+    # after every edit the set is the brute-force multiset of the CURRENT state
+    sess = mkset(A)
+    cur = list(tA)
+    extra = [build(U, F) for F in B]
+    sess.add_factors(*extra)
+    cur = cur + tB
+    d = fs_match(U, sess.get_factors(), [t for i, t in enumerate(cur) if t not in cur[:i]])
+    if d:
+        return bad("impl!=spec:FactorSet.session:add_factors", {"diff": d})
+    sess.remove_factors(extra[0])
+    cur = [t for t in cur if t != tB[0]] if tB[0] not in tA else cur
+    d = fs_match(U, sess.get_factors(), [t for i, t in enumerate(cur) if t not in cur[:i]])
+    if d:
+        return bad("impl!=spec:FactorSet.session:remove_factors", {"diff": d})
+    other = mkset(C)
+    osnap = fs_snapshot(other)
+    sess.product(other)                               # default inplace=True
+    cur = cur + tC
+    d = fs_match(U, sess.get_factors(), [t for i, t in enumerate(cur) if t not in cur[:i]])
+    if d:
+        return bad("impl!=spec:FactorSet.session:product", {"diff": d})
+    Xs = rng.sample(allvars, 1)
+    sess.marginalize([N(v) for v in Xs], inplace=True)
+    cur_specs = []
+    for fs_, ts_ in ((A, tA), (B, tB), (C, tC)):
+        for F_, t_ in zip(fs_, ts_):
+            if t_ in cur:
+                cur_specs.append(spec_marg(F_, Xs))
+    d = fs_match(U, sess.get_factors(), cur_specs)
+    if d and len({frozenset(F_["vars"]) for fs_ in (A, B, C) for F_ in fs_}) == len(A) + len(B) + len(C):
+        return bad("impl!=spec:FactorSet.session:marginalize", {"diff": d})
+    if fs_snapshot(other) != osnap or fs_shares(sess, [other]):
+        return bad("operand-mutated:FactorSet.session", {})
+    nops[0] += 4
+    tags.append("FactorSet.session")
     # constructor copies its arguments
     fobjs = [build(U, F) for F in A]
     fsn = [snapshot(x) for x in fobjs]
@@ -1601,15 +1637,6 @@ def wire_of_model(m):
     return [m[0], m[1], data, m[2]]
 
 
-def _np_scalar_finding(case, phi):
-    """numpy backend: a factor whose whole scope was eliminated holds a numpy SCALAR; identity_factor / set_value
-    reject it (reported to the coordinator; key used only for exactly this class)"""
-    import numpy as np
-    if case["backend"] == "numpy" and len(phi.variables) == 0 and isinstance(phi.values, np.generic):
-        return "numpy-scalar-values-after-full-elimination"
-    return None
-
-
 def run_session(case, drv):
     import copy as _c
     U, F = case["U"], case["f"]
@@ -1664,11 +1691,7 @@ def run_session(case, drv):
                 continue
             idx = step[1][:len(cur[0])]
             idx = [i % c for i, c in zip(idx, cur[1])]
-            try:
-                phi.set_value(float(step[2]), **{N(v): i for v, i in zip(cur[0], idx)})
-            except TypeError as e:
-                return bad("impl!=spec:session:set_value:raised", {"exc": repr(e)[:200], "steps": case["steps"], "f": F},
-                           finding=_np_scalar_finding(case, phi))
+            phi.set_value(float(step[2]), **{N(v): i for v, i in zip(cur[0], idx)})
             entry, args = "c04_set_value", [cur, Fr(step[2]), [[v, i] for v, i in zip(cur[0], idx)]]
             if U["sstyle"] != "default" and any(isinstance(state_py(U, v, z), int) and not isinstance(state_py(U, v, z), bool)
                                                   for v in cur[0] for z in U["states"][v]):
@@ -1677,11 +1700,7 @@ def run_session(case, drv):
             before = snapshot(phi)
             str(phi), repr(phi), phi.scope(), phi.get_cardinality(list(phi.variables)), phi.copy(), hash(phi)
             phi == phi.copy()
-            try:
-                phi.identity_factor()
-            except AttributeError as e:
-                return bad("impl!=spec:session:identity_factor:raised", {"exc": repr(e)[:200], "steps": case["steps"], "f": F},
-                           finding=_np_scalar_finding(case, phi))
+            phi.identity_factor()
             if len(phi.variables) and case["backend"] == "numpy" and sum(cur[2]) > 0 and min(cur[2]) >= 0:
                 df = phi.sample(3)
                 if list(df.columns) != list(phi.variables):
